@@ -98,6 +98,13 @@ def cases(tier, seed):
               (36, 20, 12, 10, 20, "simple")]
     if tier != "quick":
         ladder += [(a, b, R_, P_, R_, "simple") for (a, b) in ((48, 47), (64, 20), (20, 64), (97, 10), (33, 33), (130, 6)) for (R_, P_) in ((3, 0), (5, 10))]
+    # exact power-of-two scalings (norm of A far below eps / far above 1/eps), exact-rank without oversampling (the sketch handed to the
+    # inner QR has full rank, so no finding tag applies) and full-rank generic
+    for routine in ("rand_qsvd", "pass_eff_qsvd"):
+        for j, sc_ in enumerate((2.0 ** -60, 2.0 ** -200, 2.0 ** 100, 2.0 ** -30)):
+            for (m_, n_, R_, P_, r_, kind_) in ((9, 7, 3, 0, 3, "simple"), (6, 8, 2, 0, 2, "simple"), (7, 7, 3, 2, 7, "geometric")):
+                out.append({"kind": "run", "cls": "scaled", "routine": routine, "idx": 3 * 10 ** 6 + 10 * j + m_, "seed": seed, "maxd": maxd, "nseeds": 1,
+                            "fixed": {"m": m_, "n": n_, "R": R_, "P": P_, "r": r_, "kind": kind_, "n_iter": 1 + j % 3, "n_passes": 2 + j % 3, "scale": sc_}})
     for routine in ("rand_qsvd", "pass_eff_qsvd"):
         for j, (m_, n_, R_, P_, r_, kind_) in enumerate(ladder):
             for par in ((2, 2), (3, 3)) if tier == "quick" else ((0, 2), (1, 3), (2, 4), (3, 5)):
@@ -175,6 +182,12 @@ def run_case(spec, ctx, R):
     rng = gen.rng_for(spec["seed"], "c12", spec["idx"])
     m, n, Rk, P, r, spec_kind, svals = _config(rng, spec)
     A, _, _ = refq.with_singular_values(rng, m, n, svals)
+    sc_ = (spec.get("fixed") or {}).get("scale")
+    if sc_:
+        # exact power-of-two scaling of the whole problem: every clause is relative to ||A||
+        A = A * sc_
+        svals = svals * sc_
+        ctx.hit("scale:pow2_extreme")
     A = gen.layout(A, ["C", "C", "F", "strided", "C", "transposed_view"][spec["idx"] % 6])
     routine = spec["routine"]
     N = min(m, n)
